@@ -38,7 +38,13 @@ def run(pid, tier):
             json.dump({"property": pid, "kind": "tables", "chart": charts[v["chart"] - 1], "verdict": v,
                        "all_verdicts_of_chart": [x for x in viol if x["chart"] == v["chart"]][:30]}, f)
         paths.append(p)
-    cov = {"programs": r["charts"], "observations": r["observations"], "states": r["states"], "transitions": r["transitions"],
+    with open(os.path.join(r["workdir"], "s00.obs.ndjson")) as f:
+        sample = json.loads(next(f))
+    cov = {"evaluations": r["observations"] * 1 + (r["states"] * 4 + r["transitions"] * 5) * 5,
+           "distinct_nontrivial": r["charts"],
+           "rule": "every table entry (4 per state: parent, children, ancestors, completion; 5 per transition: post-fix position, source, targets, exit set, conflicts) of every observation (document x {C, Promela, VHDL} annotated document, + emitted C initialisers, + emitted Promela init block) is compared by TLC with the relation Tables.tla defines; distinct_nontrivial counts documents",
+           "samples": [{"chart": sample["chart"], "backend": sample["backend"], "place": sample["place"], "states": sample["states"][:3], "trans": sample["trans"][:2]}],
+           "programs": r["charts"], "observations": r["observations"], "states": r["states"], "transitions": r["transitions"],
            "timing": {k: r[k] for k in ("t_transform", "t_judge")}, "unexplained_total": len(viol),
            "explanation": "programs = documents; observations = (document, back-end, place) table sets compared by TLC: the annotated document of each of the three transformations plus the tables parsed from the emitted C initialisers and the emitted Promela init block"}
     write_evidence(pid, tier, "exploration", cov, time.time() - t0, len(viol),
